@@ -377,7 +377,11 @@ fn check_receiver(w: &World, st: &Setup, p: usize, tval: &Val, fval: &Val, n: us
     if let Some(x) = crate::oracle::receiver_conservation(w, "C06") {
         return Some(x);
     }
-    let outs: Vec<&RecvOutcome> = w.recvs.iter().map(|r| &r.outcome).collect();
+    let mut outs: Vec<&RecvOutcome> = w.recvs.iter().map(|r| &r.outcome).collect();
+    // a harness policy asks once more after the final Closed in some runs: the end is stable
+    if outs.len() >= 2 && matches!(outs[outs.len() - 1], RecvOutcome::Closed) && matches!(outs[outs.len() - 2], RecvOutcome::Closed) {
+        outs.pop();
+    }
     // the whole messages in front are delivered first
     for i in 0..p {
         match outs.get(i) {
